@@ -280,7 +280,8 @@ CLAIM = {
             'buffers (program-name copy, pointer array) are proved large enough, the pinned program-name copy is '
             'proved one byte short and was repaired. What is below the model (std::string, Boost, iostreams, '
             'allocator) is observed by the ASan+UBSan build of the real code on fuzzed argument vectors, which is a '
-            'search, not a proof. Sub-group arguments: C04_subgroups_total.',
+            'search, not a proof. Sub-group arguments: C04_subgroups_total; argument groups, with plain members and with '
+            'members that own sub-group arguments: C04_groups_total, C04_groups_with_subgroups_total.',
     'note': 'partial: proof covers the modelled index/size logic only; memory safety of library internals rests on the '
             'sanitizer-instrumented correspondence run',
     'technique': 'Coq proof (iterator invariant + termination measure, totality of the handler loop by induction on '
